@@ -7,6 +7,7 @@
    Property theorems only: each is closed by [exact] of a lemma of Proofs/OptimiseProofs.v. *)
 From Coq Require Import ZArith List Bool.
 From ESRV Require Import Common.XZ Model.Optimise Proofs.OptimiseProofs.
+From ESRV Require Gen.GenCountParams Proofs.CountParamsGenProofs.
 Import ListNotations.
 Open Scope Z_scope.
 
@@ -201,3 +202,24 @@ Example C10_ex_early :
   optimise (nil_chi2 (Fin 7)) (script_oracle [] (Raise EOther)) (stream []) (cfgf (SymOk true) [] [7])
     = early RaiseValueError.
 Proof. vm_compute. repeat split. Qed.
+
+(* ---- simplifier.count_params, which gives optimise_fun its nparam (and do_sympy / match their grouping keys).
+   count_params_code is regenerated on every run from the source (harness/translate/countparams.py); the substring test
+   `'a<j>' in fcn` is the argument [contains].  For every predicate, every number of functions and every max_param the code
+   raises nothing and returns, per function, the model's count_params (the [c_nparam] of the configurations above): 0 when no
+   parameter name below max_param occurs, else one more than the highest one that does. *)
+Theorem C10_code_count_params_is_model : forall (contains : nat -> nat -> bool) (nfun mp : nat),
+  GenCountParams.count_params_code contains nfun mp
+  = Some (map (fun i => count_params (map (contains i) (seq 0 mp)) mp) (seq 0 nfun)).
+Proof. exact CountParamsGenProofs.count_params_code_is_model. Qed.
+Print Assumptions C10_code_count_params_is_model.
+Theorem C10_code_count_params_spec : forall (contains : nat -> nat -> bool) (nfun mp : nat) (l : list nat) (i : nat), (i < nfun)%nat ->
+  GenCountParams.count_params_code contains nfun mp = Some l ->
+  (nth i l 0%nat = 0%nat /\ forall j, (j < mp)%nat -> contains i j = false) \/
+  (exists j, nth i l 0%nat = S j /\ (j < mp)%nat /\ contains i j = true /\ forall j', (j < j' < mp)%nat -> contains i j' = false).
+Proof. exact CountParamsGenProofs.count_params_code_spec. Qed.
+Print Assumptions C10_code_count_params_spec.
+Example C10_ex_code_count_params :
+  GenCountParams.count_params_code (fun i j => nth j (nth i [[true; false; true; false]; [false; false; false; false]; [false; true; false; false]] []) false) 3 4
+  = Some [3; 0; 2]%nat.
+Proof. vm_compute. reflexivity. Qed.
